@@ -382,10 +382,12 @@ func blackBox(c *hlib.Ctx, prop string) {
 		bbNonBlocking(c)
 	case "C11":
 		bbCloseDrains(c)
+		bbOverflowEpisodes(c, true)
 		fatalPath(c)
 	case "C12":
 		bbDeliversWhenIdle(c)
 		bbCloseDrains(c)
+		bbOverflowEpisodes(c, false)
 		bbPollerStaysPrompt(c)
 	}
 }
